@@ -55,16 +55,13 @@ func parseCIDR(cidr string) (*net.IPNet, error) {
 		return nil, err // Return original CIDR parse error
 	}
 
-	// Convert single IP to CIDR notation
-	if ip.To4() != nil {
-		// IPv4
-		_, ipNet, _ = net.ParseCIDR(cidr + "/32")
-	} else {
-		// IPv6
-		_, ipNet, _ = net.ParseCIDR(cidr + "/128")
+	// A single address is the host network of that address. It is built from the parsed address: appending
+	// "/32" to the text would be wrong for IPv4-mapped spellings such as ::ffff:10.0.0.1, which then parse as
+	// the IPv6 network ::/32.
+	if ip4 := ip.To4(); ip4 != nil {
+		return &net.IPNet{IP: ip4, Mask: net.CIDRMask(32, 32)}, nil
 	}
-
-	return ipNet, nil
+	return &net.IPNet{IP: ip, Mask: net.CIDRMask(128, 128)}, nil
 }
 
 // IsAllowed checks if the given IP address is allowed
